@@ -139,6 +139,10 @@ fn positions() -> &'static Vec<Pos> {
             Pos { name: "countersig-array-label-then-iv-and-partial-iv-in-the-enclosing-map", build: |n, _m| Item::Map(vec![(Item::Int(7), Item::Array(vec![Item::Array(vec![Item::Bytes(vec![]), map1(n, Item::Null), Item::Bytes(vec![1])]), Item::Array(vec![Item::Bytes(vec![]), Item::Map(vec![]), Item::Bytes(vec![2])])])), (Item::Int(5), Item::Bytes(vec![1])), (Item::Int(6), Item::Bytes(vec![2]))]), recode: recode!(Header), accepts: |i| m_header(i, &mut MCtx::default()).is_ok(), unsigned: false, uninterpreted: false },
             Pos { name: "countersig-label-then-repeated-label-in-the-enclosing-map", build: |n, _m| Item::Map(vec![(Item::Int(7), Item::Array(vec![Item::Bytes(vec![]), map1(n, Item::Null), Item::Bytes(vec![1])])), (Item::Int(9), Item::Int(1)), (Item::Int(9), Item::Int(2))]), recode: recode!(Header), accepts: |i| m_header(i, &mut MCtx::default()).is_ok(), unsigned: false, uninterpreted: false },
             Pos { name: "sign1-countersig-crit-entry-then-empty-crit-in-the-enclosing-map", build: |n, _m| Item::Array(vec![Item::Bytes(vec![]), Item::Map(vec![(Item::Int(7), Item::Array(vec![Item::Bytes(vec![]), map1(Item::Int(2), Item::Array(vec![n])), Item::Bytes(vec![1])])), (Item::Int(2), Item::Array(vec![]))]), Item::Null, Item::Bytes(vec![])]), recode: recode!(coset::CoseSign1), accepts: |i| m_msg(Kind::Sign1, i, &mut MCtx::default()).is_ok(), unsigned: false, uninterpreted: false },
+            // extras that follow an extra labelled 0 (the one extra label that sorts ahead of the typed ones)
+            Pos { name: "header-label-after-label-0", build: |n, _m| Item::Map(vec![(Item::Int(0), Item::Null), (n, Item::Null), (Item::Int(900), Item::Int(1))]), recode: recode!(Header), accepts: |i| m_header(i, &mut MCtx::default()).is_ok(), unsigned: false, uninterpreted: false },
+            Pos { name: "header-extra-value-after-label-0", build: |n, _m| Item::Map(vec![(Item::Int(1), Item::Int(-7)), (Item::Int(0), Item::Bool(true)), (Item::Int(100), n)]), recode: recode!(Header), accepts: |_| true, unsigned: false, uninterpreted: true },
+            Pos { name: "key-extra-value-after-label-0", build: |n, _m| Item::Map(vec![(Item::Int(1), Item::Int(1)), (Item::Int(0), Item::Bool(true)), (Item::Int(-1), n), (Item::Int(-2), Item::Null)]), recode: recode!(CoseKey), accepts: |_| true, unsigned: false, uninterpreted: true },
             Pos { name: "header-extra-value", build: |n, _m| map1(Item::Int(100), n), recode: recode!(Header), accepts: |_| true, unsigned: false, uninterpreted: true },
             Pos { name: "key-extra-value", build: |n, _m| Item::Map(vec![(Item::Int(1), Item::Int(1)), (Item::Int(-1), n)]), recode: recode!(CoseKey), accepts: |_| true, unsigned: false, uninterpreted: true },
             // ... also as the *key* of a map nested inside an extra value (and deeper: in an array, under a tag)
@@ -513,7 +517,7 @@ pub fn property() -> Property {
     Property {
         id: "C15",
         title: "Integers are decoded exactly or rejected as out of range, never wrapped",
-        rule: "integer n x interpreting position (70 positions (incl. an out-of-range integer that is the first of several faults of its map (no kty, a later ill-formed entry), labels beside populated typed fields, map keys nested inside extra values, the same integer twice as labels of one map, positions inside counter-signature arrays, nested recipients, key sets, and pairs of adjacent integers in one map): labels, alg, kty, content type, crit / key_ops entries, claim keys, nonces, timestamps, key data length, registry labels, and uninterpreted extra values) \
+        rule: "integer n x interpreting position (73 positions (incl. an out-of-range integer that is the first of several faults of its map (no kty, a later ill-formed entry), labels beside populated typed fields, map keys nested inside extra values, the same integer twice as labels of one map, positions inside counter-signature arrays, nested recipients, key sets, and pairs of adjacent integers in one map): labels, alg, kty, content type, crit / key_ops entries, claim keys, nonces, timestamps, key data length, registry labels, and uninterpreted extra values) \
                x head width (every legal width and the bignum form); exhaustive over the boundary lattice (c-3..c+3 around 0, 23/24, 2^8, 2^16, 2^31, 2^32, 2^63, 2^64 of both signs), random elsewhere in [-2^64, 2^64-1]; \
                non-trivial = |n| >= 2^31 or n on the lattice; distinct by (position, n, width)",
         assumptions: &["oracle: out-of-range => the out-of-range error; in range => accepted iff the reference model accepts, and the re-encoding read by the strict reader holds exactly n"],
